@@ -1,8 +1,9 @@
 (* C04 - Function signature agrees with CPython's calling convention.
-   Statements only; proofs in Proofs/ArgsProofs.v.  Model: Model/Args.v (args_from_input,
+   Statements only; proofs in Proofs/ArgsProofs.v and Proofs/HeaderProofs.v.  Model: Model/Args.v (args_from_input,
    args_to_parameters, args_to_input), CPython side: Spec/Sig.v (inspect._signature_from_function). *)
 From PCD Require Import Base.PyBase Base.Cfg Model.Flags Model.Args Spec.Sig
-  Proofs.C11_Statements Proofs.ArgsProofs.
+  Proofs.C11_Statements Proofs.ArgsProofs Model.Data Model.Consts Model.CodeData Spec.FuncKind
+  Proofs.C04b_Statements Proofs.HeaderProofs.
 
 (* For all argument counts, flags and co_varnames (long enough, parameter names distinct and
    non-empty): the decoded Args name each parameter with the kind inspect.signature reports, in
@@ -53,3 +54,30 @@ Example C04_example :
   | Err _ => false
   end = true.
 Proof. vm_compute. reflexivity. Qed.
+
+(* Docstring, kind and "type None": whenever decoding succeeds, the data has a function type exactly when
+   the code is function-like (CO_OPTIMIZED and CO_NEWLOCALS; module and class-body code decodes with
+   type None); then the docstring is what CPython exposes as __doc__ (co_consts[0] when it is a str),
+   the type is inspect's classification (isgeneratorfunction / iscoroutinefunction / isasyncgenfunction:
+   one bit of co_flags each), and the args are the decoder's reading of exactly the header fields and
+   flag bits that C04_args_is_inspect_signature equates with inspect.signature.  Spec/FuncKind.v is
+   compared with real function objects and inspect on every run (group spec-kind). *)
+Theorem C04_docstring_kind_and_type_none : forall c code ks d,
+  flags_wf (cfg_flags c) = true ->
+  mapM (to_const c) (co_consts code) = OK ks ->
+  decode_code c code ks = OK d ->
+  match cd_type d with
+  | None => function_like c (co_flags code) = false
+  | Some f =>
+      function_like c (co_flags code) = true
+      /\ fn_doc f = cpy_doc (co_consts code)
+      /\ fn_type f = inspect_kind c (co_flags code)
+      /\ exists fl0 fl1,
+           to_flags_data c (co_flags code) = OK fl0
+           /\ args_from_input (co_argcount code) (if cfg_v38 c then co_posonlyargcount code else 0)
+                              (co_kwonlyargcount code) (co_varnames code) fl0 = OK (fn_args f, fl1)
+           /\ flag_mem VARARGS fl0 = bit_set c VARARGS (co_flags code)
+           /\ flag_mem VARKEYWORDS fl0 = bit_set c VARKEYWORDS (co_flags code)
+  end.
+Proof. exact C04_header. Qed.
+Print Assumptions C04_docstring_kind_and_type_none.
